@@ -1350,7 +1350,7 @@ func NewSoftware(version uint8, softwareName string) Software {
 	software := Software{regexResult[0][1], defaultZapi6SoftwareVersion}
 	var err error
 	software.version, err = strconv.ParseFloat(regexResult[0][2], 64)
-	if err != nil || software.name != "cumulus" && version >= 5 {
+	if software.name != "cumulus" && (err != nil || version >= 5) {
 		software.name = defaultZebraSoftwareName
 		if version == 5 && software.version < 4 && software.version >= 6 {
 			software.version = defaultZapi5SoftwareVersion
